@@ -473,11 +473,24 @@ class atom(boolean.AndRestriction):
         if c:
             return c
 
+        c = cmp(f(self.subslot), f(other.subslot))
+        if c:
+            return c
+
+        c = cmp(f(self.slot_operator), f(other.slot_operator))
+        if c:
+            return c
+
         c = cmp(self.use, other.use)
         if c:
             return c
 
-        return cmp(self.repo_id, other.repo_id)
+        c = cmp(self.repo_id, other.repo_id)
+        if c:
+            return c
+
+        # equal versions spelled differently (1.0 vs 1.00) are unequal atoms; keep the order total
+        return cmp(self.cpvstr, other.cpvstr)
 
     no_usedeps = klass.alias_attr("get_atom_without_use_deps")
 
